@@ -123,6 +123,13 @@ def check(repo: Repo, run: Run) -> None:
         key_ok = k is not None and (
             (k.op == "lambda" and len(k.a) > 1 and k.a[1].op == "attr" and k.a[1].a[1] == "load_addr" and k.a[1].a[0].op == "bound")
             or k == T("call", (T("global", ("operator.attrgetter",)), (const("load_addr"),), ())))
+        if k is not None and not key_ok and k.op == "func":
+            # a module-level key function: its body over its single parameter
+            found = repo.lookup(k.a[0])
+            if found and found[0] == "func" and len(found[2].args.args) == 1:
+                krec = sym.Interp(repo).run(found[1], found[2])
+                key_ok = not krec.notes and not krec.effects and \
+                    krec.return_term() == T("attr", (param(found[2].args.args[0].arg), "load_addr"))
         rev = "reverse" in kw and sym.truth(kw["reverse"]) is not False
     run.ob("R2", M, e.func_name, "image list sorted by load address, ascending", ok_sorted and key_ok and not rev,
            "" if ok_sorted and key_ok and not rev else "the launch trace's image list is not sorted(..., key=<load_addr>) ascending",
